@@ -653,6 +653,19 @@ fn c14_variants(sc: &Scenario, pre: &World, out: &EvalOut, plan: &EvalPlan, salt
                 push(rep, ri, vec![v("C14", "history-depends-on-order", normalise_key_msg(&dd))]);
             }
         }
+        // which Ephemerals were released for cleanup is part of the outcome as well
+        let rel = |o: &EvalOut| -> BTreeSet<String> { o.cleanup_offered.iter().map(|j| o.gv.jobs[*j].id.clone()).collect() };
+        if rel(out) != rel(&t) {
+            push(
+                rep,
+                ri,
+                vec![v(
+                    "C14",
+                    "cleanup-release-depends-on-order",
+                    format!("the set of Ephemerals offered for cleanup differs between {:?} and {:?}", plan.policy, p.policy),
+                )],
+            );
+        }
     }
 }
 
